@@ -10,7 +10,8 @@ Line protocol of the C14 driver.
   `(addr, size)` of the initial image: its SHA-1 and what the zip crate makes of it
   (`Z0` = not an archive, `Z<m>:<x>` = m members, x = hex of member 0 (`-` = empty) / `fail` / `none`).
   `L`: the pairs on which `String::from_utf8_lossy` is not the identity.
-  ops: `g` = genapi, optionally `@<k>:<kind>:<applied>` = the k-th device command fails.
+  ops: `g` = genapi, optionally `@<k>:<kind>:<applied>` = the k-th device command fails;
+  `M:<addr>:<hex>` = the device changes bytes on its own before the next call.
   answer per op: `g=ok:<len>:<fnv>` | `g=err:<Class>` | `g=panic`, followed by `n=<commands> h=<fnv of (addr,len)>`.
 -/
 namespace Driver.C14
@@ -128,14 +129,27 @@ def parseLossy : Nat → List String → Option (List (Bytes × Bytes) × List S
     pure ((a, b) :: ls, rest')
   | _, _ => none
 
-def parseOp (s : String) : Option (Option (Nat × CamVerif.Streaming.Fault)) :=
+/-- `g[@fault]` = one call of genapi; `M:<addr>:<hex>` = the device changes bytes on its own -/
+inductive DOp where
+  | call (f : Option (Nat × CamVerif.Streaming.Fault))
+  | poke (a : Nat) (d : Bytes)
+
+def parseOp (s : String) : Option DOp :=
+  if s.startsWith "M:" then
+    match s.splitOn ":" with
+    | [_, a, h] =>
+      match a.toNat?, hexToBytes h with
+      | some a, some d => some (.poke a d)
+      | _, _ => none
+    | _ => none
+  else
   match s.splitOn "@" with
-  | ["g"] => some none
+  | ["g"] => some (.call none)
   | ["g", f] =>
     match f.splitOn ":" with
     | [idx, kind, ap] =>
       match idx.toNat?, faultErr kind with
-      | some i, some e => some (some (i, ⟨e, ap == "1"⟩))
+      | some i, some e => some (.call (some (i, ⟨e, ap == "1"⟩)))
       | _, _ => none
     | _ => none
   | _ => none
@@ -150,9 +164,14 @@ def logDigest (l : List CamVerif.Streaming.Access) : String :=
     | .w a d _ _ => fnvNat (fnvNat h a) d.length) fnvInit
   s!"n={l.length} h={natToHex 16 h.toNat}"
 
-def runOps (o : Ops Dev) : List (Option (Nat × CamVerif.Streaming.Fault)) → St Dev → List String → List String
+def runOps (o : Ops Dev) : List DOp → St Dev → List String → List String
   | [], _, acc => acc.reverse
-  | f :: ops, st, acc =>
+  | .poke a d :: ops, st, acc =>
+    -- device-side change between two calls: no host access
+    if st.dev.mem.rangeMapped a d.length then
+      runOps o ops { st with dev := { st.dev with mem := st.dev.mem.write a d } } ("M=ok" :: acc)
+    else runOps o ops st ("M=unmapped" :: acc)
+  | .call f :: ops, st, acc =>
     let st : St Dev := { st with dev := { st.dev with log := [], faults := schedule f } }
     let (r, st') := genapi o st
     let res := match r with
